@@ -286,6 +286,11 @@ func (this *partition) proposeAddNode(ctx context.Context, nodeId uint64) error 
 }
 
 func (this *partition) addNode(nodeId uint64) {
+	if this.isOnNode(nodeId) {
+		// A repeated change for a node that is already a replica: listing it twice
+		// and loading its raft group a second time would orphan the running group
+		return
+	}
 	this.meta.NodeIds = append(this.meta.NodeIds, nodeId)
 
 	if nodeId == this.raftTransport.NodeId() {
